@@ -3,7 +3,7 @@ CONSTANTS Timers = {0, 1, 2}
           AutoOffs = {3600, 3719}
           Step = 1800
           MaxAir = 2
-          Fam = "heater"
+          Fam = "thermo"
 INVARIANT TypeOK
 INVARIANT PowerAndTimerAgree
 INVARIANT ReportedNormalised
@@ -11,6 +11,7 @@ INVARIANT SeesTheCommand
 INVARIANT ViewsAgreeAlways
 INVARIANT ReadSeesTheCommand
 PROPERTY QueriesAreReadOnly
+PROPERTY TimeMovesOnlyTimers
 PROPERTY NoDeliveryWhileStopped
 PROPERTY TimerCountsDown
 PROPERTY OnlyCommandsAndTimeChangeTheDevice
